@@ -259,7 +259,79 @@ func (x *Exec) fnTerm(st *State, v Value) Value {
 	if returnsOnlyNil(cv.Fn) {
 		st.assume(App("noopfn", BoolS, t))
 	}
+	if returnsEmptyBytes(cv.Fn) {
+		st.assume(App("emptyblobfn", BoolS, t))
+	}
 	return t
+}
+
+// returnsEmptyBytes: a function literal whose whole body is `return blob.NewBytes(nil), nil`
+// (decided syntactically on its naive-form SSA: locals for the results, one call of NewBytes(nil),
+// its conversion to the interface, stores of that value and of a nil error, the return).
+func returnsEmptyBytes(fn *ssa.Function) bool {
+	if len(fn.Blocks) != 1 || len(fn.Params) != 0 || len(fn.FreeVars) != 0 || fn.Signature.Results().Len() != 2 {
+		return false
+	}
+	var call *ssa.Call
+	var mk *ssa.MakeInterface
+	storedMk, storedNil, returned := false, false, false
+	for _, in := range fn.Blocks[0].Instrs {
+		switch n := in.(type) {
+		case *ssa.DebugRef, *ssa.Alloc, *ssa.RunDefers:
+		case *ssa.UnOp:
+			if _, ok := n.X.(*ssa.Alloc); !ok || n.Op != token.MUL {
+				return false
+			}
+		case *ssa.Call:
+			if b, ok := n.Common().Value.(*ssa.Builtin); ok && b.Name() == "ssa:deferstack" {
+				continue
+			}
+			if call != nil {
+				return false
+			}
+			callee := n.Common().StaticCallee()
+			if callee == nil || callee.String() != modPath+"/keyvalue/blob.NewBytes" || len(n.Common().Args) != 1 {
+				return false
+			}
+			c, ok := n.Common().Args[0].(*ssa.Const)
+			if !ok || c.Value != nil {
+				return false
+			}
+			call = n
+		case *ssa.MakeInterface:
+			if mk != nil || call == nil || n.X != ssa.Value(call) {
+				return false
+			}
+			mk = n
+		case *ssa.Store:
+			if _, ok := n.Addr.(*ssa.Alloc); !ok {
+				return false
+			}
+			switch v := n.Val.(type) {
+			case *ssa.MakeInterface:
+				if v != mk {
+					return false
+				}
+				storedMk = true
+			case *ssa.Const:
+				if v.Value != nil {
+					return false
+				}
+				storedNil = true
+			case *ssa.Call:
+				if b, ok := v.Common().Value.(*ssa.Builtin); !ok || b.Name() != "ssa:deferstack" {
+					return false
+				}
+			default:
+				return false
+			}
+		case *ssa.Return:
+			returned = true
+		default:
+			return false
+		}
+	}
+	return call != nil && mk != nil && storedMk && storedNil && returned
 }
 
 // returnsOnlyNil: a function literal that does nothing but return nil/zero constants (decided syntactically on its SSA).
@@ -1290,6 +1362,21 @@ func (x *Exec) loopWrites2(fr *Frame, st *State, body map[*ssa.BasicBlock]bool) 
 				case *ssa.FieldAddr:
 					owner := namedOf(a.X.Type().Underlying().(*types.Pointer).Elem())
 					f := structOf(owner).Field(a.Field)
+					// a field of an object allocated inside the loop body (possibly through embedded
+					// structs): only addresses allocated after loop entry change
+					root := ssa.Value(a)
+					for {
+						fa, ok := root.(*ssa.FieldAddr)
+						if !ok {
+							break
+						}
+						root = fa.X
+					}
+					if al, ok := root.(*ssa.Alloc); ok && al.Heap && body[al.Block()] && !isPlainStruct(f.Type()) {
+						fn := f.Name()
+						x.addFreshOnly(arraysOfType(func(sfx string) string { return fieldArrName(owner, fn, sfx) }, f.Type(), false))
+						continue
+					}
 					if isPlainStruct(f.Type()) {
 						addStruct(f.Type())
 					} else {
